@@ -40,7 +40,10 @@ PROPS["C18"] = dict(
     rule="ridiff: (a) every ReloadId::update sequence up to the length/id bound, from every start id "
          "(exhaustive); (b) seeded random sequential mixtures of AtomicReloadId update/fetch_max/swap/"
          "store/load incl. ids up to 2^40; (c) 2..16 threads racing update on one AtomicReloadId, "
-         "judged by accept_updates (proved complete for every schedule). Non-trivial = at least two "
+         "judged by accept_updates (proved complete for every schedule); ids at the edges of the "
+         "representation (0, isize::MAX, usize::MAX) in (a'), (b), (c); (d) 3..5 threads swapping distinct ids: "
+         "every id is handed back exactly once or left in the cell, and of several threads swapping one id "
+         "into NEVER exactly one sees NEVER (monitor).  Non-trivial = at least two "
          "operations; distinct = distinct printed case.",
     trusted_base=["atomicity of AtomicUsize::{fetch_max,fetch_add,swap,store,load}: each is one step of "
                   "the cell model (memory orderings not modelled)"],
@@ -81,10 +84,10 @@ PROPS["C08"] = dict(
     theorems=["C08_code_has_the_protocol_shapes", "C08_code_senders_never_block", "C08_no_deadlock", "C08_every_step_decreases_the_measure",
               "C08_bounded_work", "C08_every_call_returns", "C08_released_by_own_token",
               "C08_sort_terminates", "C08_sort_exact_and_duplicate_free",
-              "C08_code_marks_before_recursing", "C08_old_visit_diverges",
+              "C08_code_marks_before_recursing", "C08_code_reloader_thread_has_the_default_stack", "C08_old_visit_diverges",
               "C08_executable_model_never_deadlocks", "C08_executable_model_bounded_work",
               "C08_executable_model_rests_only_when_all_returned"],
-    engines=[("answers", ["--parts", "shapes,flood,conc,gone"])],
+    engines=[("answers", ["--parts", "shapes,flood,conc,gone,deep"])],
     thorough_features=[["parking_lot"]],
     disagreement_is_violation=True,
     rule="answers: (B) every digraph of get_cached look-ups on <=2 (quick) / <=3 (thorough) TNode assets "
@@ -92,7 +95,9 @@ PROPS["C08"] = dict(
          "child process through load, per-node edits, batched events and hot_reload (abort/hang of the "
          "child = failure); (A) 1..16 threads calling hot_reload concurrently with loader threads and "
          "event bursts under a 4 s no-progress watchdog; (E) 1 and 4 threads calling hot_reload after the "
-         "source let go of its event sender and the reloader thread left.  Non-trivial = shape with at least one edge, "
+         "source let go of its event sender and the reloader thread left; (F) a chain of 1500 (5000) assets each "
+         "loading the next, loaded bottom-up, then the bottom edited: one pass walks and reloads the whole "
+         "chain on the reloader thread (child process; abort = failure).  Non-trivial = shape with at least one edge, "
          "or a concurrent configuration; distinct = distinct shape/configuration.",
     trusted_base=["Mutex/Condvar semantics (mutual exclusion; notify_all wakes all current waiters; no "
                   "reliance on spurious wake-ups), FIFO crossbeam channel: modelled",
@@ -302,15 +307,17 @@ PROPS["C10"] = dict(
                "behaviour as far as sysdiff explores.",
     level_note="Trusted: Coq kernel+VM, rs2v, the harness universe and hooks (pass order, settle barrier); "
                "Handle::get's reference validity is the Rust-level consequence (not modelled).",
-    gen=["Entry", "Anycache", "Flags", "Dirs"],
+    gen=["Entry", "Anycache", "Flags", "Dirs", "CacheMap", "LocalMap", "Private"],
     model_files=SYS_MODEL_FILES,
     model_targets=["Corr/SysCheck.vo"],
-    proof_files=["Proofs/SysGrows.v", "Proofs/SysStatic.v", "Tie/Static.v", "Tie/Dirs.v", "Props/C10.v"],
+    proof_files=["Proofs/SysGrows.v", "Proofs/SysStatic.v", "Proofs/SysGraph.v", "Tie/Static.v", "Tie/Dirs.v", "Tie/Maps.v",
+                 "Props/C10.v"],
     proof_targets=["Props/C10.vo"],
     props_module="Props.C10",
     theorems=["C10_code_decides_reloadability_as_modelled", "C10_no_reloader_or_opted_out_is_static",
               "C10_get_or_insert_is_static", "C10_static_never_written",
-              "C10_static_never_written_in_any_history", "C10_flag_is_forwarded"],
+              "C10_static_never_written_in_any_history", "C10_flag_is_forwarded",
+              "C10_reloader_is_fixed_at_construction", "C10_code_clear_neither_makes_nor_drops_a_reloader"],
     engines=[("sysdiff", ["--mode", "all"])],
     relevant_classes=["non-reloadable-rewritten"],
     rule=SYS_RULE,
@@ -383,7 +390,7 @@ sys_prop(
     "Theorems (Props/C03.v, closed under the global context): the printed ErrorKind::or is the model's `or` "
     "for every pair of errors, and `or` yields the higher class (decoding > other I/O > not found > no "
     "default); the printed load_from_source equals the model on every extension list of length <= 3 and "
-    "every per-extension outcome (85 shapes x 2 default_value behaviours, bound in the statement); for "
+    "every per-extension outcome (156 shapes x 2 default_value behaviours incl. interrupted reads, bound in the statement); for "
     "EVERY extension list the first extension whose file can be read and decoded wins with the loader's "
     "result, otherwise default_value receives an error that is one of the attempts' errors of maximal class; "
     "the empty list goes to default_value with NoDefaultValue; the built-in loaders have the modelled shape, "
@@ -479,13 +486,15 @@ sys_prop(
     "a drop guard; one reload is all-or-nothing; DepsGraph::reload treats an unwinding reload as failed.  "
     "`later calls recover` and `hot_reload still returns` are exercised by the engines.",
     ["Proofs/SysGrows.v", "Proofs/SysFrame.v", "Proofs/SysRecs.v", "Proofs/SysStatic.v", "Proofs/SysMap.v",
-     "Proofs/SysReload.v", "Tie/Records.v", "Tie/Erasure.v", "Tie/Static.v", "Tie/Dirs.v", "Props/C09.v"],
+     "Proofs/SysReload.v", "Tie/Records.v", "Tie/Erasure.v", "Tie/Static.v", "Tie/Dirs.v", "Tie/Error.v",
+     "Tie/LoadFromSource.v", "Props/C09.v"],
     ["Props/C09.vo"],
     ["C09_cached_values_untouched", "C09_recording_restored_at_top_level", "C09_recording_stack_restored",
      "C09_code_restores_recording_on_every_exit", "C09_reload_is_all_or_nothing",
      "C09_code_treats_a_panicking_reload_as_failed", "C09_code_failed_reload_keeps_the_old_dependencies",
-     "C09_loads_leave_reloader_state", "C09_code_directory_faults_propagate"],
-    ["Records", "Deps", "Anycache", "Dirs", "Flags"], ["hot_reload-hangs-after-loader-panic"], mode="all",
+     "C09_loads_leave_reloader_state", "C09_code_directory_faults_propagate",
+     "C09_code_read_faults_are_reported_not_retried"],
+    ["Records", "Deps", "Anycache", "Dirs", "Flags", "Asset", "Error"], ["hot_reload-hangs-after-loader-panic"], mode="all",
     extra_engines=[("answers", ["--parts", "panic"])])
 
 sys_prop(
@@ -500,13 +509,14 @@ sys_prop(
     "exactly-once ledger over whole histories (incl. reloads, races are C01) is checked on the implementation.  "
     "Partial: swap_any's byte swap and Box::from_raw casts are memory-level and not modelled.",
     ["Proofs/SysGrows.v", "Proofs/SysStatic.v", "Proofs/SysMap.v", "Proofs/SysReload.v", "Tie/Erasure.v",
-     "Tie/Entry.v", "Tie/Maps.v", "Props/C13.v"],
+     "Tie/Entry.v", "Tie/Maps.v", "Proofs/SysLedger.v", "Props/C13.v"],
     ["Props/C13.vo"],
     ["C13_casts_are_guarded_by_the_type_id", "C13_insertion_loser_dropped_at_once", "C13_code_insert_keeps_the_first",
      "C13_remove_drops_exactly_the_removed", "C13_take_hands_over_then_the_caller_drops",
      "C13_clear_drops_every_entry", "C13_entries_reachable_through_handles_survive_loads",
      "C13_old_value_is_replaced_under_the_write_lock", "C13_lookup_is_by_type",
-     "C13_code_reload_swaps_whole_same_typed_values"],
+     "C13_code_reload_swaps_whole_same_typed_values", "C13_ledger_of_every_history", "C13_no_double_drop",
+     "C13_everything_dropped_once_when_empty", "C13_every_operation_balances"],
     ["Entry", "CacheMap", "LocalMap", "Private"],
     ["value-not-dropped-exactly-once", "handle-changed", "torn-read", "guard-not-pinned", "loser-not-dropped",
      "racers-disagree", "presence-flipped", "handle-moved"], mode="all",
